@@ -485,7 +485,93 @@ func negate(e ast.Expr) ast.Expr {
 }
 
 // render produces the Lean definition line(s) of a kernel.
+// fact evaluates a structural fact of a function's text (the skeleton the model is written against) to a Bool.
+func fact(k kernel) (bool, string, error) {
+	fd, err := findFunc(k.file, k.recv, k.fn)
+	if err != nil {
+		return false, "", err
+	}
+	switch k.unit {
+	case "keylocks-by-key":
+		// every access to the key-lock table is indexed by string(key) of the function's own key parameter
+		n, bad := 0, ""
+		ast.Inspect(fd.Body, func(x ast.Node) bool {
+			switch y := x.(type) {
+			case *ast.IndexExpr:
+				if strings.HasSuffix(text(y.X), ".keyLocks") {
+					n++
+					if text(y.Index) != "string(key)" {
+						bad = text(y)
+					}
+				}
+			case *ast.CallExpr:
+				if text(y.Fun) == "delete" && len(y.Args) == 2 && strings.HasSuffix(text(y.Args[0]), ".keyLocks") {
+					n++
+					if text(y.Args[1]) != "string(key)" {
+						bad = text(y)
+					}
+				}
+			}
+			return true
+		})
+		if n == 0 {
+			return false, "", fmt.Errorf("no access to keyLocks in %s.%s", k.recv, k.fn)
+		}
+		return bad == "", fmt.Sprintf("%d accesses to keyLocks, all indexed by string(key): %v %s", n, bad == "", bad), nil
+	case "bg-key-copied":
+		// `key = append([]byte(nil), key...)` is a statement of the function body that precedes the `go` statement, and the
+		// goroutine's body does not mention any other slice holding the key
+		copied, goSeen, ok := false, false, false
+		for _, st := range fd.Body.List {
+			if as, isA := st.(*ast.AssignStmt); isA && text(as) == "key = append([]byte(nil), key...)" {
+				copied = true
+			}
+			if _, isGo := st.(*ast.GoStmt); isGo {
+				goSeen = true
+				ok = copied
+			}
+		}
+		if !goSeen {
+			return false, "", fmt.Errorf("no go statement at the top level of %s.%s", k.recv, k.fn)
+		}
+		return ok, fmt.Sprintf("key copied before the go statement: %v", ok), nil
+	case "stored-key-copied":
+		// the entry literal stores a slice made and filled in this function: `key := make([]byte, len(k)); copy(key, k)` ... `K: key`
+		mk, cp, lit := false, false, false
+		ast.Inspect(fd.Body, func(x ast.Node) bool {
+			switch y := x.(type) {
+			case *ast.AssignStmt:
+				if text(y) == "key := make([]byte, len(k))" {
+					mk = true
+				}
+			case *ast.CallExpr:
+				if text(y) == "copy(key, k)" {
+					cp = true
+				}
+			case *ast.KeyValueExpr:
+				if text(y.Key) == "K" && text(y.Value) == "key" {
+					lit = true
+				}
+			}
+			return true
+		})
+		return mk && cp && lit, fmt.Sprintf("make=%v copy=%v literal-stores-the-copy=%v", mk, cp, lit), nil
+	}
+	return false, "", fmt.Errorf("unknown fact %q", k.unit)
+}
+
 func render(k kernel) (string, string, error) {
+	if k.kind == "fact" {
+		v, why, err := fact(k)
+		if err != nil {
+			return "", "", err
+		}
+		recv := k.recv
+		if recv != "" {
+			recv += "."
+		}
+		return fmt.Sprintf("/-- %s %s%s: %s -/\ndef %s : Bool := %v", k.file, recv, k.fn, why, k.name, v), why, nil
+	}
 	e, err := locate(k)
 	if err != nil {
 		return "", "", err
